@@ -33,6 +33,10 @@ func planFeatures(ps *rt.PlanSet) []string {
 			if p.In != nil && p.In.Op == "share" {
 				seen["val2ptr-of-share"] = true
 			}
+			seen["pointer-mismatch"] = true
+			walk(p.In, false)
+		case "ptr2val":
+			seen["pointer-mismatch"] = true
 			walk(p.In, false)
 		case "slice":
 			walk(p.In, true)
